@@ -121,6 +121,16 @@ def gen_cases(tier, seed):
         for dim in dims[:3]:
             cases.append(dict(kind='reject', degree=p, dim=dim, net='coded', rows=0))
         cases.append(dict(kind='reject', degree=p, dim='3', net='coded', rows=2))
+    # history dependence: the same judged calls after earlier calls that used non-default keywords
+    for prior in PRIORS:
+        for p in (1, 2, 3, 5):
+            cases.append(dict(kind='elevate', degree=p, num=1, omit_num=True, dim='3', net='coded', rows=0, prior=[prior]))
+            cases.append(dict(kind='elevate', degree=p, num=2, dim='2', net='coded', rows=0, prior=[prior]))
+            cases.append(dict(kind='reject', degree=p, dim='3', net='coded', rows=0, prior=[prior]))
+            if p >= 2:
+                cases.append(dict(kind='reduce', degree=p, dim='3', net='coded', rows=0, src='model', prior=[prior]))
+    for p in (1, 2, 4):
+        cases.append(dict(kind='elevate', degree=p, num=1, omit_num=True, dim='3', net='coded', rows=0))
     return cases
 
 
@@ -133,6 +143,7 @@ def run_case(case, ctx):
     from geomdl.exceptions import GeomdlException
     G = GeomdlException
     core.clear_lru_caches()
+    _prior_calls(case.get('prior'))
     k = case['kind']
     if k == 'elevate':
         _elevate(case, ctx)
@@ -144,6 +155,29 @@ def run_case(case, ctx):
         _reject(case, ctx)
     else:
         raise ValueError(k)
+
+
+PRIORS = ['elevate_num3', 'elevate_nocheck', 'reduce_nocheck', 'elevate_rows_num2']
+
+
+def _prior_calls(prior):
+    """earlier calls with non-default keywords: answers of later calls must not depend on them"""
+    if not prior:
+        return
+    from geomdl import helpers
+    Q = [[0.0, 0.0], [1.0, 2.0], [3.0, 1.0]]
+    for name in prior:
+        try:
+            if name == 'elevate_num3':
+                helpers.degree_elevation(2, copy.deepcopy(Q), num=3)
+            elif name == 'elevate_nocheck':
+                helpers.degree_elevation(2, copy.deepcopy(Q), num=2, check_num=False)
+            elif name == 'reduce_nocheck':
+                helpers.degree_reduction(2, copy.deepcopy(Q), check_num=False)
+            elif name == 'elevate_rows_num2':
+                helpers.degree_elevation(1, [[[0.0, 0.0], [1.0, 1.0]], [[2.0, 0.0], [3.0, 1.0]]], num=2)
+        except Exception:
+            pass
 
 
 def _feats(case, **kw):
@@ -189,7 +223,7 @@ def _elevate(case, ctx):
     ctx.state(dict(k='elev', P=P, t=t), nontrivial=_nontrivial(case))
     f = _feats(case, num=t)
     base = 'C08.elevation.rows' if rows else 'C08.elevation'
-    E, exc = _call(helpers.degree_elevation, p, P, num=t)
+    E, exc = _call(helpers.degree_elevation, p, P, **({} if case.get('omit_num') else {'num': t}))
     if rows:
         # acceptance of the rows shape is the obligation C08.elevation.rows itself
         if not ctx.check('C08.elevation.rows', exc is None, case, f, 'elevated rows', repr(exc),
